@@ -165,10 +165,34 @@ def cmd_load(dirs, K, numeric, small):
                     r.append({"other": repr(o)})
             rows.append(r)
         trows = [[("nan" if isinstance(o, float) and o != o else o) for o in row] for row in txt]
+        # second generation: duplicate_checker.main writes the rows it read in text mode back with csv.writer and every later stage
+        # reads THAT file; the mapping must survive this step too
+        rows2 = None
+        if numeric:
+            f2 = os.path.join(d, "subs_second.txt")
+            if S.rank == 0:
+                with open(f2, "w") as f:
+                    csv.writer(f, delimiter=';').writerows([[str(o) for o in row] for row in txt])
+            S.comm.Barrier()
+            with contextlib.redirect_stdout(io.StringIO()):
+                obj2 = S.load_subs(f2, K)
+            if S.rank == 0:
+                rows2 = []
+                for row in obj2:
+                    r = []
+                    for o in row:
+                        if isinstance(o, float):
+                            r.append({"nan": bool(o != o)})
+                        elif isinstance(o, dict):
+                            r.append({"kv": [[str(k), str(v)] for k, v in o.items()],
+                                      "num": [[num(v, pt, all_a) for v in o.values()] for pt in spec["points"]]})
+                        else:
+                            r.append({"other": repr(o)})
+                    rows2.append(r)
         plain = [[({"kv": c["kv"]} if "kv" in c else c) for c in row] for row in rows]
         digest = hashlib.sha1(json.dumps([plain, trows], sort_keys=True).encode()).hexdigest()
         if S.rank == 0:
-            results.append({"rank": 0, "size": S.size, "rows": rows, "txt": trows, "only0_is_none": only0 is None, "digest": digest})
+            results.append({"rank": 0, "size": S.size, "rows": rows, "txt": trows, "rows_second": rows2, "only0_is_none": only0 is None, "digest": digest})
         else:
             results.append({"rank": S.rank, "digest": digest, "only0_is_none": only0 is None})
     json.dump(results, sys.stdout)
